@@ -1,6 +1,7 @@
 package verifbench
 
 import (
+	"os"
 	"connectrpc.com/vanguard"
 	"fmt"
 	"strings"
@@ -273,6 +274,26 @@ func checkC01(sc *Scenario) *CheckResult {
 		return res
 	}
 	res.NonTrivial = ct != bt && (anyNonDefault(sc.Client.Msgs) || anyNonDefault(sc.Backend.Msgs))
+	if !cv.OK && sc.Backend.Kind == "ok" && !strings.Contains(sc.Note, "limit_at_boundary") {
+		// Every generated message can be carried by every codec involved, the backend is compliant and
+		// answers OK: the exchange has to succeed ("observes exactly the sequence" leaves no room for a
+		// spurious failure). The one region where it does not is known finding D10.
+		msg := ""
+		if cv.Err != nil {
+			msg = cv.Err.Message
+		}
+		res.violate("spurious_failure", "c01:"+featureSig(sc, view, "request")+":failed", "valid exchange (%s -> %s, backend answers OK) failed: %s HTTP %d %q; backend problems %v", ct, bt, cv.outcome(), cv.Status, msg, view.Problems)
+	}
+	if !cv.OK && sc.Backend.Kind == "ok" && os.Getenv("VERIF_C01_ERRCLASS") != "" {
+		msg := ""
+		if cv.Err != nil {
+			msg = cv.Err.Message
+			if len(msg) > 60 {
+				msg = msg[:60]
+			}
+		}
+		res.class("ERR %s note=%s status=%d %s->%s backendproblems=%d msg=%q", cv.outcome(), sc.Note, cv.Status, sc.Client.Form, view.triple(), len(view.Problems), msg)
+	}
 	sent := out.Sent.Msgs
 	gotReq := view.Msgs
 	rr := restRuleInvolved(out, view)
